@@ -37,9 +37,9 @@ PROPS = {
         'trusted': ['hook udp/client/export_verif.go (response-cache deadline shifting, own message-ID view)',
                     'in-memory udp/client.Session + barrier request used to wait for dispatch (harness/udpmem.go)'],
         'assumptions': ['one handleReq execution is atomic per message ID (msgIDMutex); time is modelled as validity left per cache entry, shifted by the harness instead of waiting 247 s'],
-        'level_text': 'Coq theorems (Properties/C05.v) over ALL event histories of the request-path model of udp/client.Conn: a cacheable request seen again within the lifetime never reaches the handler and is answered with the stored reply retargeted to the duplicate; after the lifetime it is fresh; the same for every use the handler makes of the request message object itself (re-labelled for forwarding, hijacked and released), with the variant of handleReq that reads the request after the handler returned refuted. Model tied to the real Conn by event-by-event correspondence over an in-memory session.',
+        'level_text': 'Coq theorems (Properties/C05.v) over ALL event histories of the request-path model of udp/client.Conn: a cacheable request seen again within the lifetime never reaches the handler and is answered with the stored reply retargeted to the duplicate; after the lifetime it is fresh. Model tied to the real Conn by event-by-event correspondence over an in-memory session.',
         'level_note': 'Trusted: Coq kernel + vm_compute, harness, verif hook; atomicity of one per-MID critical section rests on sync.Mutex; real 247 s waits replaced by deadline shifting.',
-        'explanation': 'Histories of CON/NON requests, duplicates, virtual ageing and ticks on a real udp/client.Conn (in-memory session); observed handler calls and emitted datagrams compared with the model step by step; the property predicate is evaluated on the observed history. Handlers also re-label the request message (SetType/SetMessageID/SetToken) or hijack and release it (directly, through a worker goroutine) before they set the response.',
+        'explanation': 'Histories of CON/NON requests, duplicates, virtual ageing and ticks on a real udp/client.Conn (in-memory session); observed handler calls and emitted datagrams compared with the model step by step; the property predicate is evaluated on the observed history.',
     },
     'C06': {
         'run_vo': 'Retx/Run.vo', 'props_vo': 'Properties/C06.vo', 'level': 'proof', 'confirm': True,
